@@ -45,6 +45,7 @@ OF OR IN CONNECTION WITH THE SOFTWARE OR THE USE OR OTHER DEALINGS IN THE SOFTWA
 **************************************************************************************************/
 
 #include "CoreSMTSolver.h"
+#include <common/VerifSim.h>
 
 #include <api/GlobalStop.h>
 #include <common/InternalException.h>
@@ -230,6 +231,7 @@ bool CoreSMTSolver::addOriginalClause_(vec<Lit> && ps, pair<CRef, CRef> & inOutC
 {
     assert(decisionLevel() == 0);
     inOutCRefs = {CRef_Undef, CRef_Undef};
+    OSMT_SIM_CLAUSE(&theory_handler, opensmt::verifsim::CK_ORIG, ps.size() ? &ps[0] : nullptr, ps.size());
     if (!isOK()) { return false; }
     bool logProof = this->logsResolutionProof();
     // Check if clause is satisfied and remove false/duplicate literals:
@@ -807,6 +809,7 @@ void CoreSMTSolver::analyze(CRef confl, vec<Lit>& out_learnt, int& out_btlevel)
         }
     }
     cleanup.clear();
+    OSMT_SIM_CLAUSE(&theory_handler, opensmt::verifsim::CK_LEARNT, &out_learnt[0], out_learnt.size());
 //    for (int i = 0; i < out_learnt.size(); i++)
 //        printf("%d ", out_learnt[i]);
 //    printf("\n");
@@ -1024,6 +1027,7 @@ void CoreSMTSolver::analyzeFinal(Lit p, vec<Lit>& out_conflict)
         // MB: Hopefully we have resolved away all literals including assumptions
         resolutionProof->endChain(CRef_Undef);
     }
+    OSMT_SIM_CLAUSE(&theory_handler, opensmt::verifsim::CK_FINAL, &out_conflict[0], out_conflict.size());
 }
 
 
